@@ -23,6 +23,7 @@ import (
 	"math/big"
 	"net"
 	"net/http"
+	"net/url"
 	"strings"
 	"sync"
 	"time"
@@ -40,6 +41,7 @@ type recvEvent struct {
 	TLS    bool   `json:"tls"`   // TLS was spoken to the party before anything else
 	Wire   int    `json:"wire"`
 	Detail string `json:"detail"` // request line / SOCKS target
+	Named  string `json:"named"`  // the target the party was told: CONNECT authority, authority of the absolute URI, SOCKS target, Host field
 }
 
 type world struct {
@@ -168,10 +170,10 @@ func (w *world) serve(c net.Conn) {
 		party = "?unregistered " + c.RemoteAddr().String()
 	}
 	recorded := false
-	rec := func(tlsFirst bool, wire int, detail string) {
+	rec := func(tlsFirst bool, wire int, detail, named string) {
 		if !recorded {
 			recorded = true
-			w.record(recvEvent{Party: party, TLS: tlsFirst, Wire: wire, Detail: detail})
+			w.record(recvEvent{Party: party, TLS: tlsFirst, Wire: wire, Detail: detail, Named: named})
 		}
 	}
 	var conn net.Conn = c
@@ -186,7 +188,7 @@ func (w *world) serve(c net.Conn) {
 		case bs[0] == 0x16: // TLS ClientHello
 			tc := tls.Server(&bufConn{Conn: conn, r: br}, w.tlsCfg)
 			if err := tc.Handshake(); err != nil {
-				rec(false, wDirect, "tls handshake failed: "+err.Error())
+				rec(false, wDirect, "tls handshake failed: "+err.Error(), "")
 				return
 			}
 			if !recorded {
@@ -197,26 +199,30 @@ func (w *world) serve(c net.Conn) {
 		case bs[0] == 0x05: // SOCKS5
 			target, err := socks5Accept(br, conn)
 			if err != nil {
-				rec(tlsSeen, wSocks, "socks5 error: "+err.Error())
+				rec(tlsSeen, wSocks, "socks5 error: "+err.Error(), "")
 				return
 			}
-			rec(tlsSeen, wSocks, target)
+			rec(tlsSeen, wSocks, target, target)
 		default:
 			req, err := http.ReadRequest(br)
 			if err != nil {
-				rec(tlsSeen, wDirect, "unreadable: "+err.Error())
+				rec(tlsSeen, wDirect, "unreadable: "+err.Error(), "")
 				return
 			}
 			line := req.Method + " " + req.RequestURI
 			if req.Method == http.MethodConnect {
-				rec(tlsSeen, wConnect, line)
+				rec(tlsSeen, wConnect, line, req.RequestURI)
 				io.WriteString(conn, "HTTP/1.1 200 OK\r\n\r\n")
 				continue
 			}
 			if strings.Contains(req.RequestURI, "://") {
-				rec(tlsSeen, wAbs, line)
+				named := "?"
+				if u, err := url.Parse(req.RequestURI); err == nil {
+					named = u.Host
+				}
+				rec(tlsSeen, wAbs, line, named)
 			} else {
-				rec(tlsSeen, wDirect, line)
+				rec(tlsSeen, wDirect, line, req.Host)
 			}
 			io.Copy(io.Discard, req.Body)
 			body := "party=" + party + "\n"
